@@ -9,6 +9,8 @@ import copy
 
 import torch
 
+from ..market import outside_price_domain
+
 from ..core import History, Inconclusive, Stats, Violation, bit_equal, thash
 from ..gen import (gen_price_scale, STOCK_KINDS, bs_ok, features_for, gen_barrier, gen_criterion, gen_derivative, gen_hedger,
                    gen_primary, nin_of, BS_INPUTS)
@@ -268,6 +270,10 @@ def _execute(program, stats, hist):
             raise Inconclusive("not simulated")
         dtype = spot.dtype
         dtv = float(next(iter(d.underliers())).dt)
+        if outside_price_domain(world):
+            stats.ambiguous_skipped += 1
+            hist.add(op=name, skipped="non-positive price")
+            continue
         if name == "feature_sched":
             from pfhedge.features import get_feature
             import json as _json
@@ -378,13 +384,18 @@ def _execute(program, stats, hist):
                     raise Violation(ID, "schedule_disagreement", "model_input", {
                         "step": i, "stepwise_input": l["x"][..., :F0], "vectorised_input": logv[0]["x"][:, [i], :],
                         "features": hspec["inputs"]}, seq)
-            ok, worst = _close(a, b, rtol, atol)
+            # the two schedules feed the model inputs that agree within rounding (checked above); what the model makes of that
+            # rounding grows with the size of its inputs (a binary option's Black-Scholes delta near expiry is ~1e3, one float32
+            # ulp of it ~1e-4), so the output tolerance is scaled by the input magnitude
+            in_scale = max(1.0, float(logv[0]["x"].detach().abs().nan_to_num(0.0, 0.0, 0.0).max()))
+            ok, worst = _close(a, b, rtol, atol * in_scale)
             if not ok:
                 raise Violation(ID, "schedule_disagreement", "compute_hedge", {
                     "vectorised": a, "stepwise": b, "worst": worst, "features": hspec["inputs"]}, seq)
             # P&L: |dPL| <= tol_hedge * sum|dS| (+ cost terms) ; use a generous structural scale
             spots = torch.stack([h_.spot for h_ in (hedge or list(d.underliers()))], dim=1).double()
             pl_scale = float(spots.diff(dim=-1).abs().sum(dim=(-2, -1)).max()) + float(spots.abs().max()) * 0.1 + 1.0
+            pl_scale *= in_scale
             ok, worst = _close(plv, pls, rtol, atol * pl_scale)
             if not ok:
                 raise Violation(ID, "schedule_disagreement", "compute_pl", {"vectorised": plv, "stepwise": pls, "worst": worst}, seq)
